@@ -119,7 +119,13 @@ func (rd *realDecoder) getCompactArrayLength() (int, error) {
 		return 0, nil
 	}
 
-	return int(n) - 1, nil
+	length := int(n) - 1
+	if length < 0 || length > rd.remaining() {
+		rd.off = len(rd.raw)
+		return 0, ErrInsufficientData
+	}
+
+	return length, nil
 }
 
 func (rd *realDecoder) getBool() (bool, error) {
